@@ -52,6 +52,9 @@ type Case struct {
 	Tags       []string `json:"tags,omitempty"`
 	Nontrivial bool     `json:"nontrivial"`
 	Source     string   `json:"source"` // corpus | exhaustive | random
+	// Invariant: non-empty when the run broke something the harness checks by
+	// itself, outside the model (e.g. the caller's argument slice was rewritten)
+	Invariant string `json:"invariant,omitempty"`
 }
 
 // Family generates inputs and runs one input on the implementation.
@@ -71,6 +74,7 @@ type Result struct {
 	Observed   any
 	Tags       []string
 	Nontrivial bool
+	Invariant  string
 }
 
 type Ctx struct {
@@ -215,7 +219,7 @@ func gen(f *Family, tier string, seed uint64, out string, scale int, bias, corpu
 		}
 		srcCount[source]++
 		c := Case{ID: n, Family: f.Name, Input: json.RawMessage(raw), Observed: res.Observed, Coq: res.Coq,
-			Tags: res.Tags, Nontrivial: res.Nontrivial, Source: source}
+			Tags: res.Tags, Nontrivial: res.Nontrivial, Source: source, Invariant: res.Invariant}
 		if len(samples) < 3 && res.Nontrivial && (source == "random" || len(samples) < 1) {
 			samples = append(samples, map[string]any{"input": json.RawMessage(raw), "observed": res.Observed})
 		}
